@@ -570,3 +570,45 @@ func Parallel(n, w int, f func(i int)) {
 	close(ch)
 	wg.Wait()
 }
+
+// Pool collects cases that held when evaluated one at a time, for a second pass that evaluates them side by side:
+// state shared inside the library under test (a buffer, a table, a memo keyed too coarsely) shows as a wrong value or a
+// panic only when calls overlap.
+type Pool[C any] struct {
+	mu    sync.Mutex
+	cases []C
+	check []string
+	Max   int // 0 = 20000
+}
+
+// Add keeps a case (and the check it belongs to) for the concurrent pass.
+func (p *Pool[C]) Add(check string, c C) {
+	p.mu.Lock()
+	defer p.mu.Unlock()
+	max := p.Max
+	if max == 0 {
+		max = 20000
+	}
+	if len(p.cases) < max {
+		p.cases = append(p.cases, c)
+		p.check = append(p.check, check)
+	}
+}
+
+// Concurrent re-evaluates the pooled cases w at a time; a failure is reported under the case's own check with the
+// signature prefixed by "concurrent:".
+func Concurrent[C any](r *Run, p *Pool[C], w int, eval func(C) Verdict) {
+	p.mu.Lock()
+	cases, checks := p.cases, p.check
+	p.mu.Unlock()
+	r.Rule(fmt.Sprintf("concurrent: %d of the cases above re-evaluated %d at a time (each held when run alone)", len(cases), w))
+	Parallel(len(cases), w, func(i int) {
+		v := SafeEval(func() Verdict { return eval(cases[i]) })
+		if !v.OK && v.Sig != "harness" && !strings.HasPrefix(v.Sig, "harness:") {
+			v.Sig = "concurrent:" + v.Sig
+			v.Msg = fmt.Sprintf("while %d cases were evaluated at once (the same case held when run alone): %s", w, v.Msg)
+		}
+		r.Label("concurrent-re-evaluations")
+		r.Violation(checks[i], cases[i], v)
+	})
+}
